@@ -22,7 +22,7 @@ def addDot [Add K] [Mul K] [Zero K] (row : List (Nat × K)) (x : List K) (init :
 
 /-! ### sequential (relax.cpp) -/
 
-/-- one Jacobi sweep: the diagonal is searched in the row (last match wins), `big` is `|d| > zero_tol` -/
+/-- one Jacobi sweep: the diagonal is searched in the row (last match wins), `big d` is the guard against a zero diagonal (`d != 0`; `|d| > zero_tol` before fix 237c789) -/
 def jacobiSweep [Add K] [Sub K] [Mul K] [Div K] [Zero K] [One K] (big : K → Bool)
     (rows : List (List (Nat × K))) (b x : List K) (ω : K) : List K :=
   rows.zipIdx.map fun (row, i) =>
